@@ -4,9 +4,13 @@ import (
 	"context"
 	"errors"
 	"fmt"
+	kredis "github.com/acquirecloud/golibs/kvs/redis"
+	"github.com/alicebob/miniredis/v2"
+	goredis "github.com/go-redis/redis/v8"
 	"sync"
 	"sync/atomic"
 	"time"
+	"verifharness/internal/rproxy"
 
 	"verifharness/internal/hx"
 	"verifharness/internal/prng"
@@ -29,9 +33,9 @@ import (
 //   that began after the call began.
 
 const (
-	nWriters       = 8
-	nWaiters       = 50
-	promptBound    = 2 * time.Second
+	nWriters    = 8
+	nWaiters    = 50
+	promptBound = 2 * time.Second
 )
 
 type stressResult struct {
@@ -537,4 +541,65 @@ func runStressCase(c Case) stressResult {
 		"longest_call_ms": maxLat.Milliseconds(), "storm_calls": stormCalls}
 	res.Coq = fmt.Sprintf("CaseStress %s %s", hx.N(c.ID), hx.List(terms))
 	return res
+}
+
+// slowPollCase (Redis): one answer of the server to a parked waiter's poll is held back for 400 ms (relay in front of
+// the server).  The caller's context is alive and the record keeps its version: the waiter keeps waiting, and returns
+// nil when the version changes afterwards.
+func slowPollCase() []string {
+	mr, err := miniredis.Run()
+	if err != nil {
+		return []string{"miniredis: " + err.Error()}
+	}
+	defer mr.Close()
+	px, err := rproxy.New(mr.Addr())
+	if err != nil {
+		return []string{"relay: " + err.Error()}
+	}
+	defer px.Close()
+	st := kredis.New(&goredis.Options{Addr: px.Addr()})
+	if cl, ok := st.(interface{ Close() error }); ok {
+		defer cl.Close()
+	}
+	bg := context.Background()
+	var out []string
+	for round := 0; round < 2; round++ {
+		key := fmt.Sprintf("slow%d", round)
+		r0, err := st.Put(bg, kvs.Record{Key: key, Value: []byte("v")})
+		if err != nil {
+			return []string{"slow-poll case: Put failed: " + err.Error()}
+		}
+		ctx, cancel := context.WithTimeout(bg, 20*time.Second)
+		done := make(chan error, 1)
+		go func() { done <- st.WaitForVersionChange(ctx, key, r0.Version) }()
+		time.Sleep(150 * time.Millisecond)
+		var armed int32 = 1
+		px.OnReply(func([]byte) {
+			if atomic.CompareAndSwapInt32(&armed, 1, 0) {
+				time.Sleep(400 * time.Millisecond)
+			}
+		})
+		time.Sleep(900 * time.Millisecond)
+		px.OnReply(nil)
+		select {
+		case err := <-done:
+			out = append(out, fmt.Sprintf("a waiter whose context is alive returned %v while the record kept its version (one answer of the storage to its poll took 400 ms)", err))
+			cancel()
+			continue
+		default:
+		}
+		if _, err := st.Put(bg, kvs.Record{Key: key, Value: []byte("w")}); err != nil {
+			out = append(out, "slow-poll case: Put failed: "+err.Error())
+		}
+		select {
+		case err := <-done:
+			if err != nil {
+				out = append(out, fmt.Sprintf("a waiter returned %v after the version had changed (context alive)", err))
+			}
+		case <-time.After(5 * time.Second):
+			out = append(out, "a waiter was still parked 5 s after the version had changed (after a slow answer to one of its polls)")
+		}
+		cancel()
+	}
+	return out
 }
